@@ -1140,6 +1140,177 @@ Proof.
     eapply RoundsIntoUnit_compat; [symmetry; apply decimal_value_eq | exact R].
 Qed.
 
+(* ================================================================ decimal literals with an exponent *)
+Lemma scan_exp_small ds : Forall (fun d => is_digit d = true) ds ->
+  forall e j, e < 10 ^ N.of_nat j -> (j + length ds <= 4)%nat ->
+  scan_exp ds e = Some (e * 10 ^ N.of_nat (length ds) + pos_val ds).
+Proof.
+  induction 1 as [|d ds Hd _ IH]; intros e j He Hj.
+  - cbn [scan_exp length pos_val]. change (N.of_nat 0) with 0. rewrite N.pow_0_r. f_equal. lia.
+  - cbn [scan_exp length pos_val] in *.
+    assert (E1 : (d =? c_us) = false) by (unfold is_digit, c_us in *; lia).
+    rewrite E1, Hd.
+    assert (J3 : (j <= 3)%nat) by lia.
+    assert (P : 10 ^ N.of_nat j <= 10 ^ 3) by (apply N.pow_le_mono_r; lia).
+    assert (Hlt : (e <? 10000) = true) by (change (10 ^ 3) with 1000 in P; lia).
+    rewrite Hlt. rewrite (IH (10 * e + dval d) (S j)).
+    + rewrite Nat2N.inj_succ, N.pow_succ_r'. f_equal. ring.
+    + rewrite Nat2N.inj_succ, N.pow_succ_r'. assert (dval d <= 9) by (unfold is_digit, dval in *; lia). lia.
+    + lia.
+Qed.
+
+Lemma read_exp_lit esg eneg ed :
+  (esg = [] /\ eneg = false \/ esg = [43] /\ eneg = false \/ esg = [45] /\ eneg = true) ->
+  Forall (fun d => is_digit d = true) ed -> ed <> [] -> (length ed <= 4)%nat ->
+  read_exp (esg ++ ed) = Some (if eneg then (- Z.of_N (pos_val ed))%Z else Z.of_N (pos_val ed)).
+Proof.
+  intros Hs Fd Hne Hl. destruct ed as [|d r]; [congruence|].
+  assert (Hd : is_digit d = true) by (inversion Fd; auto).
+  destruct (digit_not_sign d Hd) as [Hp Hm].
+  assert (Sc : scan_exp (d :: r) 0 = Some (pos_val (d :: r))).
+  { rewrite (scan_exp_small (d :: r) Fd 0 0%nat); [f_equal; lia | cbn; lia | cbn [length] in *; lia]. }
+  destruct Hs as [[-> ->] | [[-> ->] | [-> ->]]]; cbn [app]; unfold read_exp; cbn [split_sign].
+  - rewrite Hp, Hm, Hd, Sc. reflexivity.
+  - change (43 =? c_plus) with true. cbv iota. rewrite Hd, Sc. reflexivity.
+  - change (45 =? c_plus) with false. change (45 =? c_minus) with true. cbv iota. rewrite Hd, Sc. reflexivity.
+Qed.
+
+Lemma scan_mant_stop c r m fr sawdot sawdig :
+  (c =? c_us) = false -> (c =? c_dot) = false -> is_digit c = false ->
+  scan_mant false (c :: r) m fr sawdot sawdig = (m, fr, sawdig, c :: r).
+Proof. intros E1 E2 E3. cbn [scan_mant]. rewrite E1, E2, E3. reflexivity. Qed.
+
+Lemma hex_prefix_none t :
+  (match t with _ :: x :: _ => lowerA x =? 120 | _ => false end) = false -> hex_prefix t = None.
+Proof.
+  unfold hex_prefix. destruct t as [|z [|x [|y r]]]; try reflexivity.
+  intro H. rewrite H, andb_false_r. reflexivity.
+Qed.
+
+Theorem parse_float_decimal_exp v neg ip fp eneg ed :
+  DecimalExpLit v neg ip fp eneg ed ->
+  parse_float v =
+  Some (FNum false neg (pos_val (ip ++ fp)) (exp_value eneg ed - Z.of_nat (length fp))%Z).
+Proof.
+  intros (Fi & Ff & Hne & Fe & Ene & El & sg & esg & ec & mant & Hsg & Hesg & Hec & Hmant & ->).
+  set (tail := ec :: esg ++ ed).
+  assert (Hstop : (ec =? c_us) = false /\ (ec =? c_dot) = false /\ is_digit ec = false /\ lowerA ec = 101).
+  { destruct Hec as [-> | ->]; repeat split; reflexivity. }
+  destruct Hstop as (S1 & S2 & S3 & S4).
+  assert (Hm : Forall dd mant /\ mant <> [] /\
+               scan_mant false (mant ++ tail) 0 0 false false =
+               (pos_val (ip ++ fp), N.of_nat (length fp), true, tail)).
+  { destruct Hmant as [-> | [-> ->]].
+    - split; [|split].
+      + apply Forall_app. split; [apply Forall_digit_dd; exact Fi|].
+        constructor; [right; reflexivity | apply Forall_digit_dd; exact Ff].
+      + destruct ip; discriminate.
+      + rewrite <- app_assoc. rewrite (scan_mant_digits ip Fi). cbn [app scan_mant].
+        change (46 =? c_us) with false. change (46 =? c_dot) with true. cbv iota.
+        rewrite (scan_mant_digits fp Ff). unfold tail. rewrite scan_mant_stop by assumption.
+        rewrite pos_val_app.
+        assert (X3 : false || nonempty ip || nonempty fp = true).
+        { destruct Hne as [H|H]; [destruct ip; [congruence | reflexivity] |
+                                  destruct fp; [congruence | destruct ip; reflexivity]]. }
+        rewrite X3.
+        replace ((0 * 10 ^ N.of_nat (length ip) + pos_val ip) * 10 ^ N.of_nat (length fp) + pos_val fp)
+          with (pos_val ip * 10 ^ N.of_nat (length fp) + pos_val fp) by lia.
+        replace (0 + N.of_nat (length fp)) with (N.of_nat (length fp)) by lia. reflexivity.
+    - split; [apply Forall_digit_dd; exact Fi|]. split; [destruct Hne as [H|H]; congruence|].
+      rewrite (scan_mant_digits ip Fi). unfold tail. rewrite scan_mant_stop by assumption.
+      rewrite app_nil_r. cbn [length].
+      assert (X3 : false || nonempty ip = true) by (destruct ip; [destruct Hne; congruence | reflexivity]).
+      rewrite X3. replace (0 * 10 ^ N.of_nat (length ip) + pos_val ip) with (pos_val ip) by lia. reflexivity. }
+  destruct Hm as (Fm & Hmne & Sc).
+  destruct mant as [|c r]; [congruence|]. inversion Fm as [|? ? Hc Fr]; subst.
+  cbn [app] in *.
+  destruct (special_dd_head c (r ++ tail) Hc) as (S0 & Sp1 & Sp2).
+  destruct (dd_facts c Hc) as (Hp & Hmi & _).
+  (* no underscore anywhere *)
+  assert (Us : ~ In c_us (c :: r ++ tail)).
+  { change (c :: r ++ tail) with ((c :: r) ++ tail). intro H. apply in_app_or in H as [H|H].
+    - exact (digits_no_us _ Fm H).
+    - unfold tail in H. destruct H as [H|H]; [unfold c_us in *; destruct Hec; subst; discriminate|].
+      apply in_app_or in H as [H|H].
+      + destruct Hesg as [[-> _] | [[-> _] | [-> _]]]; cbn in H; unfold c_us in H; intuition discriminate.
+      + exact (digits_no_us _ (Forall_digit_dd _ Fe) H). }
+  (* hex prefix impossible *)
+  assert (Hx : hex_prefix (c :: r ++ tail) = None).
+  { apply hex_prefix_none. destruct r as [|x r']; cbn [app].
+    - unfold tail. rewrite S4. reflexivity.
+    - inversion Fr as [|? ? Hx' _]; subst. destruct (dd_facts x Hx') as (_ & _ & _ & Hl & Hlt). rewrite Hl. lia. }
+  assert (Sp : special (sg ++ c :: r ++ tail) = None /\ split_sign (sg ++ c :: r ++ tail) = (neg, c :: r ++ tail) /\
+               ~ In c_us (sg ++ c :: r ++ tail)).
+  { destruct Hsg as [[-> ->] | [[-> ->] | [-> ->]]]; cbn [app split_sign].
+    - rewrite Hp, Hmi. auto.
+    - change (43 =? c_plus) with true. split; [exact Sp1 | split; [reflexivity|]].
+      intros [E|E]; [discriminate E | exact (Us E)].
+    - change (45 =? c_plus) with false. change (45 =? c_minus) with true.
+      split; [exact Sp2 | split; [reflexivity|]]. intros [E|E]; [discriminate E | exact (Us E)]. }
+  destruct Sp as (Sp & Ss & Un).
+  unfold parse_float. rewrite Sp. rewrite read_float_nonempty by (destruct sg; discriminate).
+  rewrite Ss, Hx. cbv zeta. rewrite Sc. cbn [negb]. unfold tail in *. rewrite S4.
+  change (101 =? 101) with true. cbv iota.
+  rewrite (read_exp_lit esg eneg ed Hesg Fe Ene El).
+  rewrite (underscore_ok_no_underscore _ Un). rewrite nat_N_Z. reflexivity.
+Qed.
+
+(* ================================================================ NaN spellings; opacity from a parsed number *)
+Lemma read_float_not_special s : read_float s <> Some FNaN /\ forall b, read_float s <> Some (FInf b).
+Proof.
+  unfold read_float. destruct s as [|c0 r0]; [split; [discriminate | intro; discriminate]|].
+  destruct (split_sign (c0 :: r0)) as [neg t].
+  destruct (scan_mant (match hex_prefix t with Some _ => true | None => false end)
+                      (match hex_prefix t with Some r => r | None => t end) 0 0 false false) as [[[m fr] sawdig] rest].
+  destruct (negb sawdig); [split; [discriminate | intro; discriminate]|].
+  destruct rest as [|c r].
+  - destruct (match hex_prefix t with Some _ => true | None => false end); [split; [discriminate | intro; discriminate]|].
+    destruct (underscore_ok (c0 :: r0)); split; try discriminate; intro; discriminate.
+  - destruct (lowerA c =? _); [|split; [discriminate | intro; discriminate]].
+    destruct (read_exp r); [|split; [discriminate | intro; discriminate]].
+    destruct (underscore_ok (c0 :: r0)); split; try discriminate; intro; discriminate.
+Qed.
+
+Theorem parse_float_nan_iff v : parse_float v = Some FNaN <-> map lowerA v = str_nan.
+Proof.
+  unfold parse_float. split.
+  - destruct (special v) as [f|] eqn:S.
+    + intro E. inversion E; subst. unfold special in S. destruct v as [|c r]; [discriminate|].
+      destruct ((c =? c_plus) || (c =? c_minus)).
+      * destruct (bytes_eqb (map lowerA r) str_inf || bytes_eqb (map lowerA r) str_infinity); discriminate.
+      * destruct (bytes_eqb (map lowerA (c :: r)) str_inf || bytes_eqb (map lowerA (c :: r)) str_infinity); [discriminate|].
+        destruct (bytes_eqb (map lowerA (c :: r)) str_nan) eqn:B; [|discriminate]. apply bytes_eqb_eq in B. exact B.
+    + intro E. exfalso. exact (proj1 (read_float_not_special v) E).
+  - intro E. assert (S : special v = Some FNaN).
+    { unfold special. destruct v as [|c r]; [discriminate|].
+      assert (Hc : lowerA c = 110) by (cbn [map] in E; unfold str_nan in E; congruence).
+      assert (Hs : (c =? c_plus) || (c =? c_minus) = false).
+      { unfold lowerA, c_plus, c_minus in *. destruct ((65 <=? c) && (c <=? 90)) eqn:U; lia. }
+      rewrite Hs, E. reflexivity. }
+    rewrite S. reflexivity.
+Qed.
+
+Lemma opacity_of_parsed (g : list N -> bool) c v hex neg m e :
+  parse_float v = Some (FNum hex neg m e) ->
+  (accepts g c KOpacity v = true <-> RoundsIntoUnit (fnum_Q hex neg m e)).
+Proof.
+  intro P. rewrite opacity_accept_iff. split.
+  - intros [H | (x & (h' & n' & m' & e' & E & ->) & R)]; [congruence|].
+    rewrite P in E. inversion E; subst. exact R.
+  - intro R. right. exists (fnum_Q hex neg m e). split; [exists hex, neg, m, e; auto | exact R].
+Qed.
+
+Theorem opacity_decimal_exp (g : list N -> bool) c v neg ip fp eneg ed :
+  DecimalExpLit v neg ip fp eneg ed ->
+  (accepts g c KOpacity v = true <->
+   RoundsIntoUnit (fnum_Q false neg (pos_val (ip ++ fp)) (exp_value eneg ed - Z.of_nat (length fp)))).
+Proof. intro D. apply opacity_of_parsed. apply parse_float_decimal_exp. exact D. Qed.
+
+(* the guard of the opacity theorem, stated on the string *)
+Theorem opacity_guarded_spelling (g : list N -> bool) c v :
+  map lowerA v <> str_nan -> (accepts g c KOpacity v = true <-> DocOpacityRounded v).
+Proof. intro H. apply opacity_guarded. rewrite parse_float_nan_iff. exact H. Qed.
+
 (* ================================================================ near constants *)
 Lemma near_constants_ident : forallb ident_word doc_near_constants = true.
 Proof. vm_compute. reflexivity. Qed.
